@@ -148,6 +148,12 @@ func c07build(atoms []c07atom, paramStyle int) c07model {
 			entries = append(entries, decEntry{d, "tunused"})
 		}
 	}
+	sort.SliceStable(entries, func(i, j int) bool {
+		if paramStyle >= 4 {
+			return entries[i].d > entries[j].d
+		}
+		return entries[i].d < entries[j].d
+	})
 	for i := 0; i < 3; i++ {
 		s := Service{Name: c07svc[i], Constructor: P("NewThing"), Args: svcArgs[i], Tags: svcTags[i]}
 		// spread the references over argument kinds: arguments / call / field, by position
@@ -162,8 +168,17 @@ func c07build(atoms []c07atom, paramStyle int) c07model {
 	}
 	for i := 0; i < 3; i++ {
 		var v any = i + 1
-		if len(parDeps[i]) == 1 && paramStyle == 0 {
+		if len(parDeps[i]) == 1 && paramStyle%4 == 0 {
 			v = "%" + c07par[parDeps[i][0]] + "%"
+		} else if len(parDeps[i]) >= 1 && paramStyle%4 >= 2 {
+			// every referenced parameter occurs twice (style 2) or three times (style 3) in the pattern
+			var sb strings.Builder
+			for rep := 0; rep < paramStyle%4; rep++ {
+				for _, d := range parDeps[i] {
+					sb.WriteString("<%" + c07par[d] + "%>")
+				}
+			}
+			v = sb.String()
 		} else if len(parDeps[i]) >= 1 {
 			var sb strings.Builder
 			sb.WriteString("x")
@@ -174,6 +189,13 @@ func c07build(atoms []c07atom, paramStyle int) c07model {
 		}
 		m.cfg.Params = append(m.cfg.Params, Param{c07par[i], v})
 	}
+	// declaration order: decorator 0's entries first (style < 4) or last (style >= 4)
+	sort.SliceStable(entries, func(i, j int) bool {
+		if paramStyle >= 4 {
+			return entries[i].d > entries[j].d
+		}
+		return entries[i].d < entries[j].d
+	})
 	for _, e := range entries {
 		m.cfg.Decorators = append(m.cfg.Decorators, Decorator{Tag: e.tag, Decorator: fmt.Sprintf("Decorate%d", e.d), Args: decArgs[e.d]})
 	}
@@ -353,7 +375,7 @@ func init() {
 	Register(&Check{
 		ID:    "C07",
 		Level: "exploration",
-		Rule: "all sets of <= k of the 44 edge atoms over {3 services, 2 tags, 2 decorators, 3 parameters}: s->@s' (9), s requests !tagged t (6), s carries t (6), decorator on tag (4), decorator->@s (6), decorator requests !tagged t (4), p->%p'% (9); k=3 quick, k=5 thorough; plus all 512 parameter graphs (both single-chunk and multi-chunk realisations) and all 512 service @-graphs; " +
+		Rule: "all sets of <= k of the 44 edge atoms over {3 services, 2 tags, 2 decorators, 3 parameters}: s->@s' (9), s requests !tagged t (6), s carries t (6), decorator on tag (4), decorator->@s (6), decorator requests !tagged t (4), p->%p'% (9); k=3 quick, k=5 thorough; plus all 512 parameter graphs in four realisations (single chunk, multi-chunk, every reference twice, every reference three times), both declaration orders of the decorators and all 512 service @-graphs; " +
 			"non-trivial = the reference relation has a cycle; distinct = distinct atom set",
 		Assumptions: []string{
 			"oracle: own reachability on the relation of the statement; every reported line is checked edge by edge against an independently built fine-grained graph (tag / decorator pseudo-nodes as the tool prints them)",
@@ -373,6 +395,21 @@ func init() {
 					for i, x := range idx {
 						sel[i] = c07atoms[x]
 					}
+					both := false
+					d0, d1 := false, false
+					for _, a := range sel {
+						if a.kind == "on" || a.kind == "ds" || a.kind == "dt" {
+							if a.a == 0 {
+								d0 = true
+							} else {
+								d1 = true
+							}
+						}
+					}
+					both = d0 && d1
+					if both {
+						w.Case(id+"/reversed-decorators", func(c *C) { c07eval(w, c, sel, 4) })
+					}
 					w.Case(id, func(c *C) {
 						c07eval(w, c, sel, 0)
 						if size == 3 && idx[0] == 1 && idx[1] == 12 && idx[2] == 40 {
@@ -382,7 +419,7 @@ func init() {
 				})
 			}
 			// all parameter graphs, both realisations; all service @ graphs
-			for style := 0; style < 2; style++ {
+			for style := 0; style < 4; style++ {
 				for mask := 0; mask < 512; mask++ {
 					var sel []c07atom
 					for b := 0; b < 9; b++ {
